@@ -5,6 +5,7 @@ mod catalog_drv;
 mod codes_drv;
 mod common;
 mod gen;
+mod io_drv;
 mod names_drv;
 mod pool_drv;
 mod rdata_drv;
@@ -34,6 +35,7 @@ fn main() {
         "catalog" => catalog_drv::main(&args[1..]),
         "rrl" => rrl_drv::main(&args[1..]),
         "pool" => pool_drv::main(&args[1..]),
+        "io" => io_drv::main(&args[1..]),
         "zonefile" => zonefile_drv::main(&args[1..]),
         d => {
             eprintln!("unknown driver {}", d);
